@@ -219,3 +219,18 @@ def keep_old_merge(ctx):
     from . import c05
     c05.single_pass_merge(ctx)
     c05.subsequence(ctx)
+
+
+@rule('C04', 'no-keep-old-latest-only', configs=('default', 'p256'))
+def no_keep_old_latest_only(ctx):
+    """'A key refreshed without keep-old opens only encapsulations under the newest secret' (C05.no-keep-old-latest-only)."""
+    from . import c05
+    c05.no_keep_old_latest_only(ctx)
+
+
+@rule('C04', 'rights-kept', configs=('default', 'p256'))
+def rights_kept(ctx):
+    """'Every authorized key opens new encapsulations once refreshed': the merge never gives up a right the master key still
+    holds (C05.rights-kept)."""
+    from . import c05
+    c05.rights_kept(ctx)
